@@ -324,3 +324,118 @@ func TestVerifC14Registrations(t *testing.T) {
 	})
 	L.End(true)
 }
+
+// several routing tags on one registration, and several registrations that share
+// a prefix: each tag / registration must denote exactly its own route, and the
+// joined configuration must stay acceptable.
+func TestVerifC14RegMulti(t *testing.T) {
+	L := ev.Begin("C14", "c14-multi", "exploration",
+		"(a) one registration carrying two routing tags: every ordered pair of prefixes from {/x, foo.com/y, :1234} x every ordered pair of option sets from {none} + 18 single options; (b) two registrations of different services sharing one prefix from the same list x every ordered pair of option sets; through the real routecmd.build for each and route.NewTable on the joined text. oracle: the joined text is accepted; every expressible tag / registration is present with exactly its own destination, weight and options (nothing inherited from its neighbour), every inexpressible one is absent. non-trivial = pairs where the two option sets differ")
+	prefixes := []string{"/x", "foo.com/y", ":1234"}
+	optPool := []string{"", "strip=/x", "proto=https", "proto=tcp", "proto=grpc", "weight=0.2", "weight=abc", "weight=Inf", "weight=0.05", "weight=-1", "redirect=301,https://t.example/", "host=be-$DC.internal", "host=dst", "allow=ip:10.0.0.0/8", "a=\"b\"", "tlsskipverify=true", "flag", "weight=5%", "register=alias"}
+	env := map[string]string{"DC": "dc1"}
+	type job struct {
+		kind   string
+		p1, p2 string
+		o1, o2 string
+	}
+	var jobs []job
+	for _, p1 := range prefixes {
+		for _, p2 := range prefixes {
+			for _, o1 := range optPool {
+				for _, o2 := range optPool {
+					if p1 != p2 {
+						jobs = append(jobs, job{"two-tags-one-registration", p1, p2, o1, o2})
+					} else {
+						jobs = append(jobs, job{"two-registrations-one-prefix", p1, p2, o1, o2})
+					}
+				}
+			}
+		}
+	}
+	opts := func(o string) []string {
+		if o == "" {
+			return nil
+		}
+		return []string{o}
+	}
+	consulParallel(len(jobs), func(i int) {
+		j := jobs[i]
+		L.Case()
+		if j.o1 != j.o2 {
+			L.NontrivialKey(fmt.Sprint(j))
+		}
+		e1 := c14Entry{"svc", "10.1.1.1", 8001, j.p1, opts(j.o1), nil}
+		e2 := c14Entry{"svc", "10.1.1.1", 8001, j.p2, opts(j.o2), nil}
+		var svcs []*api.CatalogService
+		if j.kind == "two-tags-one-registration" {
+			c := e1.catalog()
+			c.ServiceTags = append(c.ServiceTags, e2.catalog().ServiceTags...)
+			svcs = []*api.CatalogService{c}
+		} else {
+			e2.name, e2.addr, e2.port = "other", "10.1.1.2", 8002
+			svcs = []*api.CatalogService{e1.catalog(), e2.catalog()}
+		}
+		d := map[string]interface{}{"case": j.kind, "tag1": "urlprefix-" + j.p1 + " " + j.o1, "tag2": "urlprefix-" + j.p2 + " " + j.o2}
+		var all []string
+		msg, stack, pan := ev.Guard(func() {
+			for _, s := range svcs {
+				all = append(all, routecmd{svc: s, prefix: "urlprefix-", env: env}.build()...)
+			}
+		})
+		if pan {
+			d["panic"], d["stack"] = msg, stack
+			L.Violation("build-panics/multi", d)
+			return
+		}
+		d["commands"] = all
+		if i%211 == 0 {
+			L.Sample(d)
+		}
+		sort.Sort(sort.Reverse(sort.StringSlice(all)))
+		tbl, err := route.NewTable(bytes.NewBufferString(strings.Join(all, "\n")))
+		if err != nil {
+			d["err"] = err.Error()
+			L.Violation("registrations-acceptable-alone-rejected-together/"+j.kind, d)
+			return
+		}
+		for k, e := range []c14Entry{e1, e2} {
+			x := c14Expectation(e)
+			if x.open {
+				continue
+			}
+			var found []*route.Target
+			for _, routes := range tbl {
+				for _, r := range routes {
+					if r.Host != x.host || r.Path != x.path {
+						continue
+					}
+					for _, tg := range r.Targets {
+						if tg.Service == e.name {
+							found = append(found, tg)
+						}
+					}
+				}
+			}
+			L.Outcome(fmt.Sprint(j.kind, len(found), x.expressible))
+			which := fmt.Sprintf("tag%d", k+1)
+			switch {
+			case !x.expressible && len(found) != 0:
+				d["which"] = which
+				L.Violation("inexpressible-registration-not-dropped/"+j.kind, d)
+			case x.expressible && len(found) != 1:
+				d["which"], d["targets_found"] = which, len(found)
+				L.Violation("expressible-registration-missing/"+j.kind, d)
+			case x.expressible:
+				tg := found[0]
+				got := fmt.Sprintf("dst=%s weight=%v opts=%v", tg.URL.String(), tg.FixedWeight, tg.Opts)
+				want := fmt.Sprintf("dst=%s weight=%v opts=%v", x.dst, x.weight, x.opts)
+				if tg.URL.String() != x.dst || tg.FixedWeight != x.weight || !reflect.DeepEqual(tg.Opts, x.opts) {
+					d["which"], d["got"], d["want"] = which, got, want
+					L.Violation("route-does-not-denote-its-own-tag/"+j.kind, d)
+				}
+			}
+		}
+	})
+	L.End(true)
+}
